@@ -41,19 +41,19 @@ def r1(ctx):
     ctx.ob(run.qual, "discard-everything-not-heterozygous", ok, run.loc(), "to_discard = all − heterozygous" if ok else "to_discard is %s" % (u(td) if td is not None else "?"))
     rm = [c for c in ctx.prog.calls_in(run.node) if u(c.func) == "phasable_variant_table.remove_rows_by_index"]
     rd = [c for c in ctx.prog.calls_in(run.node) if u(c.func) == "phased_input_reader.read"]
-    ok = len(rm) == 1 and len(rd) == 1 and u(rm[0].args[0]) == "to_discard" and cfg.dominates(cfg.node_containing(rm[0]), cfg.node_containing(rd[0])) and u(rd[0].args[1]) == "phasable_variant_table.variants"
+    ok = (None if not rm else (len(rm) == 1 and len(rd) == 1 and u(rm[0].args[0]) == "to_discard" and cfg.dominates(cfg.node_containing(rm[0]), cfg.node_containing(rd[0])) and u(rd[0].args[1]) == "phasable_variant_table.variants"))
     ctx.ob(run.qual, "rows-removed-before-reads-are-fetched", ok, run.loc(), "non-heterozygous rows are removed before reads are read for the remaining variants" if ok else "reads are fetched before / without removing non-heterozygous rows")
     gl = [n for n in walk_function(run.node) if isinstance(n, ast.For) and u(n.iter) == "enumerate(genotypes)"]
     gd = util.single_def(run.node, "genotypes")
-    ok = len(gl) == 1 and gd is not None and u(gd) == "variant_table.genotypes_of(sample)"
+    ok = (None if not gl else (len(gl) == 1 and gd is not None and u(gd) == "variant_table.genotypes_of(sample)"))
     ctx.ob(run.qual, "classification-over-the-samples-genotypes", ok, run.loc(), "the classification runs over the sample's own genotype column" if ok else "genotype column of the classification changed")
     ps = [c for c in ctx.prog.calls_in(run.node) if u(c.func) == "phase_single_individual"]
-    ok = len(ps) == 1 and [u(a) for a in ps[0].args[:3]] == ["readset", "phasable_variant_table", "sample"]
+    ok = (None if not ps else (len(ps) == 1 and [u(a) for a in ps[0].args[:3]] == ["readset", "phasable_variant_table", "sample"]))
     ctx.ob(run.qual, "solver-gets-the-reduced-table", ok, run.loc(), "phase_single_individual works on the reduced table" if ok else "phase_single_individual does not receive the reduced table")
     # the table's rows are the positions of the read set that is actually handed to the solver:
     # no redefinition of `readset` between subset_rows_by_position(readset.get_positions()) and the solver call
     sub = [c for c in ctx.prog.calls_in(run.node) if u(c.func) == "phasable_variant_table.subset_rows_by_position"]
-    okr = len(sub) == 1 and len(ps) == 1 and u(sub[0].args[0]) == "readset.get_positions()"
+    okr = (None if not sub else (len(sub) == 1 and len(ps) == 1 and u(sub[0].args[0]) == "readset.get_positions()"))
     bad = None
     if okr:
         n_sub, n_ps = cfg.node_containing(sub[0]), cfg.node_containing(ps[0])
@@ -71,7 +71,7 @@ def r2(ctx):
     rt = ctx.func(TH + ".run_threading")
     cfg = ctx.cfg(rt)
     fg = [n for n in walk_function(rt.node) if isinstance(n, ast.Assign) and isinstance(n.value, ast.Call) and u(n.value.func) == "force_genotypes"]
-    ok = len(fg) == 1 and u(fg[0].targets[0]) == "haplotypes"
+    ok = (None if not fg else (len(fg) == 1 and u(fg[0].targets[0]) == "haplotypes"))
     if ok:
         ga = guard_atoms(cfg, cfg.node_of(fg[0]))
         ok = ("distrust_genotypes", False) in ga
@@ -79,7 +79,7 @@ def r2(ctx):
         ok = ok and amap.get("haplotypes") == "haplotypes" and amap.get("genotypes") == "genotypes"
     ctx.ob(rt.qual, "force-genotypes-unless-distrusted", ok, rt.loc(fg[0]) if fg else rt.loc(), "haplotypes = force_genotypes(..., haplotypes, genotypes, ...) on the `not distrust_genotypes` branch" if ok else "force_genotypes is not applied to the computed haplotypes under `not distrust_genotypes`")
     rets = [n for n in walk_function(rt.node) if isinstance(n, ast.Return)]
-    okr = len(rets) == 1 and isinstance(rets[0].value, ast.Tuple) and u(rets[0].value.elts[1]) == "haplotypes"
+    okr = (None if not rets else (len(rets) == 1 and isinstance(rets[0].value, ast.Tuple) and u(rets[0].value.elts[1]) == "haplotypes"))
     bad = None
     if ok and okr:
         ch = [n for n in walk_function(rt.node) if isinstance(n, ast.Assign) and isinstance(n.value, ast.Call) and u(n.value.func) == "compute_haplotypes"]
@@ -130,7 +130,7 @@ def r2(ctx):
     # caller passes the flag and the genotypes through
     pb = ctx.func(AL + ".phase_single_block")
     rc = [c for c in ctx.prog.calls_in(pb.node) if u(c.func) == "run_threading"]
-    ok = len(rc) == 1 and u(rc[0].args[3]) == "genotypes" and any(k.arg == "distrust_genotypes" and u(k.value) == "param.distrust_genotypes" for k in rc[0].keywords)
+    ok = (None if not rc else (len(rc) == 1 and u(rc[0].args[3]) == "genotypes" and any(k.arg == "distrust_genotypes" and u(k.value) == "param.distrust_genotypes" for k in rc[0].keywords)))
     ctx.ob(pb.qual, "threading-gets-block-genotypes-and-flag", ok, pb.loc(rc[0]) if rc else pb.loc(), "run_threading(…, genotypes, distrust_genotypes=param.distrust_genotypes)" if ok else "run_threading is not called with the block's genotypes and the distrust flag")
     # singleton shortcut from the genotype itself
     pcfg = ctx.cfg(pb)
@@ -237,7 +237,7 @@ def r2(ctx):
         a = u(inner[0].target)
         incs = [x for x in ast.walk(inner[0]) if isinstance(x, ast.AugAssign) and isinstance(x.op, ast.Add) and u(x.target) == "allele_count[%s]" % a and u(x.value) == "1"]
         outer = inner[0].parent
-        ok = len(incs) == 1 and isinstance(outer, ast.For) and u(outer.iter) == "range(len(all_genotypes))" and any(isinstance(c, ast.Call) and u(c.func) == "genotype_list.append" and u(c.args[0]) == "allele_count" for c in ast.walk(outer))
+        ok = (None if not incs else (len(incs) == 1 and isinstance(outer, ast.For) and u(outer.iter) == "range(len(all_genotypes))" and any(isinstance(c, ast.Call) and u(c.func) == "genotype_list.append" and u(c.args[0]) == "allele_count" for c in ast.walk(outer))))
     ctx.ob(cg.qual, "genotype-dict-is-allele-count", ok, cg.loc(), "genotype_list[k] counts the alleles of the sample's input genotype k" if ok else "create_genotype_list no longer counts the alleles of genotype.as_vector()")
     psi = ctx.func(PP + ".phase_single_individual")
     gld = util.single_def(psi.node, "genotype_list")
@@ -246,7 +246,7 @@ def r2(ctx):
     ctx.ob(psi.qual, "solver-gets-input-genotypes", ok, psi.loc(), "the solver receives the genotype list of the reduced input table" if ok else "solve_polyphase_instance does not receive create_genotype_list(table, sample)")
     sp = ctx.func(AL + ".solve_polyphase_instance")
     slices = [c for c in ctx.prog.calls_in(sp.node, include_nested=True) if u(c.func) in ("phase_single_block",)]
-    ok = len(slices) == 1 and u(slices[0].args[2]) == "genotype_list[start:end]" and u(slices[0].args[1]) == "submatrix" and u(util.single_def(sp.node, "submatrix")) == "allele_matrix.extractInterval(start, end)"
+    ok = (None if not slices else (len(slices) == 1 and u(slices[0].args[2]) == "genotype_list[start:end]" and u(slices[0].args[1]) == "submatrix" and u(util.single_def(sp.node, "submatrix")) == "allele_matrix.extractInterval(start, end)"))
     ctx.ob(sp.qual, "block-gets-its-own-genotype-slice", ok, sp.loc(), "block [start, end) is phased with genotype_list[start:end] and the matrix interval [start, end)" if ok else "the genotype slice of a block does not match its matrix interval")
 
 
@@ -315,11 +315,11 @@ def r3(ctx):
                 oko, why = None, "cannot tell whether `%s` keeps every variant in its own interval" % s_.text()[:70]
             ctx.ob(psi.qual, "no-other-writer-of-components:%s" % key[:40], oko, psi.loc(s_.stmt), why)
     cc = [n for n in walk_function(psi.node) if isinstance(n, ast.Assign) and isinstance(n.value, ast.Call) and u(n.value.func) == "compute_cut_positions"]
-    ok = len(cc) == 1 and u(cc[0].targets[0].elts[0]) == "cuts" and u(cc[0].value.args[0]) == "result.breakpoints"
+    ok = (None if not cc else (len(cc) == 1 and u(cc[0].targets[0].elts[0]) == "cuts" and u(cc[0].value.args[0]) == "result.breakpoints"))
     ctx.ob(psi.qual, "cuts-from-the-solvers-breakpoints", ok, psi.loc(), "cuts are computed from the solver's breakpoints" if ok else "cuts do not come from compute_cut_positions(result.breakpoints, ...)")
     # super reads: haplotype i -> read i, alleles at accessible_pos[j]
     addv = [c for c in ctx.prog.calls_in(psi.node) if u(c.func) == "read.add_variant"]
-    ok = len(addv) == 1 and [u(a) for a in addv[0].args[:2]] == ["accessible_pos[j]", "result.haplotypes[i][j]"]
+    ok = (None if not addv else (len(addv) == 1 and [u(a) for a in addv[0].args[:2]] == ["accessible_pos[j]", "result.haplotypes[i][j]"]))
     lp = addv[0] if addv else None
     loops = []
     while lp is not None:
@@ -343,7 +343,7 @@ def r4(ctx):
     run = ctx.func(PP + ".run_polyphase")
     w = [c for c in ctx.prog.calls_in(run.node) if u(c.func) == "PhasedVcfWriter"]
     kw = {k.arg: u(k.value) for k in w[0].keywords} if w else {}
-    ok = len(w) == 1 and kw.get("ploidy") == "ploidy" and kw.get("mav") == "mav" and kw.get("tag") == "tag"
+    ok = (None if not w else (len(w) == 1 and kw.get("ploidy") == "ploidy" and kw.get("mav") == "mav" and kw.get("tag") == "tag"))
     ctx.ob(run.qual, "writer-configured-with-ploidy-and-mav", ok, run.loc(w[0]) if w else run.loc(), "the shared writer is created with this run's ploidy, mav and tag" if ok else "PhasedVcfWriter is created with %s" % kw)
 
 
